@@ -52,7 +52,11 @@ theorem loadStepG_plain (buf : Bytes) (x : XTable) (n : Nat) (acc : Outcome (LOb
           obtain ⟨id, lo⟩ := r
           simp only
           cases lo with
-          | pending d s => rfl
+          | pending d s =>
+            simp only
+            split
+            · simp only [plainDec]
+            · rfl
           | plain o =>
             cases o with
             | stream d c =>
